@@ -196,7 +196,7 @@ PROPS["C11"] = {
 PROPS["C12"] = {
     "lean_modules": ["BurrowVerif.Props.C12"],
     "props_files": ["BurrowVerif/Props/C12.lean"],
-    "anchors": ["core/internal/cluster/kafka_cluster.go"],
+    "anchors": ["core/internal/cluster/kafka_cluster.go", "core/internal/helpers/sarama.go"],
     "streams": [dict(_CLUSTER_STREAM, keys={"deletes", "refresh", "fm"})],
     "rule": _CLUSTER_RULE,
     "trusted": PROPS["C11"]["trusted"],
